@@ -17,6 +17,11 @@ REALISTIC += [
     ("fork", "S: X 'a' 'b' T | Y 'a' 'c' T;\nX: 'q';\nY: 'q';\nT: 'd' | T 'd';\n", ["q a b d d", "q a c d", "q a b d d d"]),
     ("fork2", "S: A 'x' B | C 'x' D;\nA: 'k';\nC: 'k';\nB: 'b' B | 'b';\nD: 'd' D | 'd';\n", ["k x b b b", "k x d d", "k x b"]),
 ]
+# LALR lookaheads that are only valid inside brackets: after the junk two GLR heads are recovered at DIFFERENT positions (each finds another
+# closing bracket) and the next error follows at once (round-4 seeded change C11-h: the error context was no longer the farthest head)
+TWINS = ("twins", "S: A T | B U | '(' T ')' | '[' U ']';\nA: 'a';\nB: 'a';\nT: n;\nU: n;\nterminals\nn: /\\d+/;\n", ["a 1", "( 1 )", "[ 2 ]"])
+REALISTIC.append(TWINS)
+EXTRA_INPUTS = {"twins": ["a 1 & ] )", "a 1 & ) ]", "a 1 & ] ) ]", "a & 1 ] )", "a 1 ? ) & ]", "( 1 & ] )", "[ 1 & ) ]"]}
 JUNK = ["?", "#", "@@", "$ $", "!", "&"]
 
 
@@ -49,6 +54,10 @@ def corruptions(sentence, rng, alphabet, n):
     return sorted(out)
 
 
+def _tlen(h):
+    return len(h.token_ahead) if h.token_ahead is not None else -1
+
+
 def _tpos(h):
     """position of the head's lookahead token (-1: none; the STOP token and injected tokens may have none: the head's position then)"""
     t = h.token_ahead
@@ -66,7 +75,7 @@ class LRRecorder:
             return
         if kind == "lr_token":
             h = f["head"]
-            self.ev.append({"e": "tok", "sym": h.token_ahead.symbol.name if h.token_ahead is not None else "-", "pos": h.position, "st": -1, "p": -1, "ok": True})
+            self.ev.append({"e": "tok", "sym": h.token_ahead.symbol.name if h.token_ahead is not None else "-", "pos": h.position, "st": -1, "p": -1, "ok": True, "tpos": _tpos(h), "tlen": _tlen(h)})
         elif kind == "lr_shift":
             self.ev.append({"e": "shift", "sym": "", "pos": f["head"].position, "st": f["head"].state.state_id, "p": -1, "ok": True})
         elif kind == "lr_reduce":
@@ -79,11 +88,11 @@ class LRRecorder:
             # not a hook: logged by the harness's own custom strategy when it returns (what it left in the head)
             h = f["head"]
             self.ev.append({"e": "strat", "sym": h.token_ahead.symbol.name if h.token_ahead is not None else "-", "pos": h.position, "st": -1, "p": -1,
-                            "ok": bool(f["successful"]), "tpos": _tpos(h)})
+                            "ok": bool(f["successful"]), "tpos": _tpos(h), "tlen": _tlen(h)})
         elif kind == "lr_recover":
             h = f["head"]
             self.ev.append({"e": "recover", "sym": h.token_ahead.symbol.name if h.token_ahead is not None else "-", "pos": h.position, "st": -1, "p": -1,
-                            "ok": bool(f["successful"]), "tpos": _tpos(h)})
+                            "ok": bool(f["successful"]), "tpos": _tpos(h), "tlen": _tlen(h)})
 
 
 def make_strategy(real, name, counter):
@@ -129,7 +138,8 @@ def _make_strategy(real, name, counter):
             syms = sorted((s for s in head.state.actions if s.name not in ("STOP", "EMPTY")), key=lambda s: s.name)
             if not syms:
                 return default(head)
-            head.token_ahead = Token(syms[0], "", position=head.position)
+            # a token that was NOT in the input: a value for the tree, no length in the input (the documented way: explicit length=0)
+            head.token_ahead = Token(syms[0], "<missing>", position=head.position, length=0)
             return True
         return inject
     if name == "wrap":
@@ -232,7 +242,7 @@ def _jobs(tier, seed):
         extra = []
         for _ in range(p["nin"] // 3):
             extra.append("".join(rng2.choice(alphabet + [" ", " ", "?", "("]) for _ in range(rng2.randint(0, 8))))
-        jobs.append({"name": name, "gtext": text, "inputs": sorted(set(inputs)), "origin": "det"})
+        jobs.append({"name": name, "gtext": text, "inputs": sorted(set(inputs) | set(EXTRA_INPUTS.get(name, []))), "origin": "det"})
         jobs.append({"name": name, "gtext": text, "inputs": sorted(set(extra)), "origin": "rand"})
     fam = gen.family(3, 3, nts=("S", "A"), terms=gen.PLAIN_TERMS, limit=p["nfam"], rng_seed=1112)
     for i, g in enumerate(fam):
